@@ -122,11 +122,30 @@ Theorem C17_accepted_implies_checked : forall e cfg w,
     (c_queries_path c <> "" ->
        w_query_files w <> [] /\ forallb gf_ok (w_query_files w) = true /\ relevant_op_errors w = [] /\
        forallb (fun o => match op_name o, op_err o with Some _, None => true | _, _ => false end) (w_ops w) = true) /\
-    has_dup (unique_check_names e c
+    has_dup (unique_check_names e c w
       (match add_operations (if String.eqb (c_queries_path c) "" then [] else w_ops w) [] with
        | Ok r => r | _ => [] end)) = false.
 Proof. exact run_client_done_implies_checked. Qed.
 Print Assumptions C17_accepted_implies_checked.
+
+(* since /repo d2e37b3: two operations mapping to one module name are refused in the operations phase,
+   i.e. before generate — the modules of an accepted operation list are pairwise distinct *)
+Theorem C17_operation_modules_distinct : forall ops r, add_operations ops [] = Ok r -> NoDup r.
+Proof. intros ops r. apply add_operations_nodup. constructor. Qed.
+Print Assumptions C17_operation_modules_distinct.
+
+Theorem C17_same_module_refused : forall o ops files n,
+  op_name o = Some n -> In (module_name n ++ ".py")%string files ->
+  add_operations (o :: ops) files
+  = Err (mkerr ParsingError ("Duplicated file names: " ++ module_name n ++ ".py")%string).
+Proof. exact add_operations_dup_refused. Qed.
+Print Assumptions C17_same_module_refused.
+
+(* ... and that refusal leaves no mkdir/write behind (instance of reject_before_write at PhOperations) *)
+Theorem C17_operations_refusal_before_write : forall e cfg w x,
+  snd (run_client e cfg w) = Failed PhOperations x -> no_writes (fst (run_client e cfg w)) = true.
+Proof. intros e cfg w x. apply run_client_reject_before_write. Qed.
+Print Assumptions C17_operations_refusal_before_write.
 
 Theorem C17_syntax_error_names_first_bad_file : forall fs log log' x,
   load_files fs log = (log', Some x) ->
@@ -158,7 +177,7 @@ Definition ex_world (errs : list string) (b : build_res) : world :=
   {| w_schema_files := [{| gf_path := "s.graphql"; gf_ok := true |}]; w_schema_build := b; w_remote := None;
      w_schema_errors := errs; w_plugin_err := None;
      w_query_files := [{| gf_path := "q.graphql"; gf_ok := true |}]; w_op_errors := [];
-     w_ops := [{| op_name := Some "GetQ"; op_err := None |}]; w_fragments := false |}.
+     w_ops := [{| op_name := Some "GetQ"; op_err := None |}]; w_fragments := false; w_query_type := true; w_mutation_type := false |}.
 Definition is_ok {A} (r : res A) : bool := match r with Ok _ => true | _ => false end.
 Definition dummy_craw : craw :=
   {| r_base := {| b_schema_path := ""; b_url := ""; b_headers := []; b_verify := true; b_custom_ops := false;
@@ -185,6 +204,27 @@ Proof. vm_compute. auto. Qed.
 Theorem C17_schema_keyword_rejected :
   get_graphql_schema_settings ex_env (ex_cfg [("schema_variable_name", JStr "class")])
     = Err (mkerr InvalidConfiguration "Provided name class cannot be used as python identifier.").
+Proof. vm_compute. auto. Qed.
+
+(* former observation, fixed in /repo d2e37b3, regression: GetA and getA both map to get_a.py *)
+Theorem C17_ops_same_module_refused_regression :
+  let w := {| w_schema_files := [{| gf_path := "s.graphql"; gf_ok := true |}]; w_schema_build := BuildOk;
+              w_remote := None; w_schema_errors := []; w_plugin_err := None;
+              w_query_files := [{| gf_path := "q.graphql"; gf_ok := true |}]; w_op_errors := [];
+              w_ops := [{| op_name := Some "GetA"; op_err := None |}; {| op_name := Some "getA"; op_err := None |}];
+              w_fragments := false; w_query_type := true; w_mutation_type := false |} in
+  snd (run_client ex_env (ex_cfg []) w)
+    = Failed PhOperations (mkerr ParsingError "Duplicated file names: get_a.py") /\
+  no_writes (fst (run_client ex_env (ex_cfg []) w)) = true.
+Proof. vm_compute. auto. Qed.
+
+(* /repo 18e873d, regression: variable names that shadow an import of the generated module, or each other *)
+Theorem C17_schema_reserved_variable_rejected :
+  get_graphql_schema_settings ex_env (ex_cfg [("schema_variable_name", JStr "GraphQLSchema")])
+    = Err (mkerr InvalidConfiguration
+        "Provided name GraphQLSchema is imported by the generated schema module and cannot be used as a variable name in it.") /\
+  get_graphql_schema_settings ex_env (ex_cfg [("type_map_variable_name", JStr "schema")])
+    = Err (mkerr InvalidConfiguration "schema_variable_name and type_map_variable_name must be different.").
 Proof. vm_compute. auto. Qed.
 
 (* F17: an invalid schema is accepted and the package is written *)
@@ -233,7 +273,7 @@ Example C17_each_phase_can_fail :
   snd (run_client ex_env (ex_cfg [])
          {| w_schema_files := [{| gf_path := "s.graphql"; gf_ok := false |}]; w_schema_build := BuildOk;
             w_remote := None; w_schema_errors := []; w_plugin_err := None; w_query_files := [];
-            w_op_errors := []; w_ops := []; w_fragments := false |})
+            w_op_errors := []; w_ops := []; w_fragments := false; w_query_type := true; w_mutation_type := false |})
     = Failed PhSchema (mkerr InvalidGraphqlSyntax "Invalid graphql syntax in file s.graphql") /\
   snd (run_client ex_env (ex_cfg [])
          {| w_schema_files := [{| gf_path := "s.graphql"; gf_ok := true |}]; w_schema_build := BuildOk;
@@ -241,12 +281,12 @@ Example C17_each_phase_can_fail :
             w_query_files := [{| gf_path := "q.graphql"; gf_ok := true |}];
             w_op_errors := [("NoUnusedFragmentsRule", "Fragment 'F' is never used.");
                             ("ScalarLeafsRule", "Field 'me' must have a selection of subfields.")];
-            w_ops := []; w_fragments := false |})
+            w_ops := []; w_fragments := false; w_query_type := true; w_mutation_type := false |})
     = Failed PhQueries (mkerr InvalidOperationForSchema "Field 'me' must have a selection of subfields.") /\
   snd (run_client ex_env (ex_cfg [])
          {| w_schema_files := [{| gf_path := "s.graphql"; gf_ok := true |}]; w_schema_build := BuildOk;
             w_remote := None; w_schema_errors := []; w_plugin_err := None;
             w_query_files := [{| gf_path := "q.graphql"; gf_ok := true |}]; w_op_errors := [];
-            w_ops := [{| op_name := Some "Client"; op_err := None |}]; w_fragments := false |})
+            w_ops := [{| op_name := Some "Client"; op_err := None |}]; w_fragments := false; w_query_type := true; w_mutation_type := false |})
     = Failed PhGenerate (mkerr ParsingError "Duplicated file names: ").
 Proof. vm_compute. repeat split. Qed.
